@@ -114,7 +114,6 @@ type vfSysRun struct {
 	pos  string
 	bad  bool
 	bare bool // ResetStartPoint ran, no setCheckpoint since
-	lastLifeDbs int
 }
 
 // The log of the current target with the connections of the requests issued since position n0 renumbered:
@@ -232,16 +231,17 @@ func vfSysId(r *vfutil.Rand) string { return fmt.Sprintf("%x", r.Bytes(20)) }
 
 // the requests of a sender session as they reached the target, one token each (lean/GunYu/Drive/C17.lean c17life):
 // the model (BookSys.logTrace) follows SELECT / MULTI / EXEC itself, the harness only names what each request is
-func vfSysWire(seg []vfdoubles.LogEntry, key, rid string) (toks []string, odd string) {
-	conn := -1 // the session's connection (StartPoint reads on another one)
+func vfSysConn(seg []vfdoubles.LogEntry) int {
 	for _, e := range seg {
 		switch e.Cmd() {
 		case "set", "hset", "multi", "ping":
-			if conn < 0 {
-				conn = e.Conn
-			}
+			return e.Conn // the session's connection (StartPoint reads on another one, gc on a third)
 		}
 	}
+	return -1
+}
+
+func vfSysWire(seg []vfdoubles.LogEntry, conn int, key, rid string) (toks []string, odd string) {
 	for _, e := range seg {
 		if e.Conn != conn {
 			continue
@@ -358,7 +358,26 @@ func vfC17Sys(t *testing.T, s *vfutil.Session, seed uint64, nsteps int, tag *int
 			c := &vfSCase{cp: x.c.key, rid: x.c.mas, tdb: -1, sdb: -1, resume: true, txn: r.Bool(), pipeline: r.Chance(1, 3),
 				bc: uint(vfutil.Pick(r, []int{1, 3, 100})), bb: 1 << 30, perB: 1000000, perK: 1501000, perC: 2503000}
 			var chunks [][]byte
-			for i, n := 0, r.Range(1, 4); i < n; i++ {
+			pingpong := r.Chance(1, 3)
+			if pingpong {
+				// the D24 scenario on purpose: database a, database b, (gc: a is stale now), back to a, where the session
+				// remembers having written its run id and writes the offset field alone
+				da := r.Intn(4)
+				db := (da + 1 + r.Intn(3)) % 4
+				for i, n := 0, r.Range(3, 4); i < n; i++ {
+					d := da
+					if i%2 == 1 {
+						d = db
+					}
+					b := vfEncodeCmd([][]byte{[]byte("select"), []byte(strconv.Itoa(d))})
+					for k, m := 0, r.Range(1, 2); k < m; k++ {
+						streamKey++
+						b = append(b, vfEncodeCmd([][]byte{[]byte("set"), []byte(fmt.Sprintf("k%d", streamKey)), []byte("v")})...)
+					}
+					chunks = append(chunks, b)
+				}
+			}
+			for i, n := 0, r.Range(1, 4); !pingpong && i < n; i++ {
 				var b []byte
 				if r.Chance(4, 5) {
 					b = append(b, vfEncodeCmd([][]byte{[]byte("select"), []byte(strconv.Itoa(r.Intn(4)))})...)
@@ -376,8 +395,11 @@ func vfC17Sys(t *testing.T, s *vfutil.Session, seed uint64, nsteps int, tag *int
 			before := checkpoint.VfDumpState(x.tg).Encode()
 			var spErr error
 			gcAt, gcLogAt, gcLogEnd := -1, -1, -1
-			if len(chunks) > 1 && r.Bool() {
+			if len(chunks) > 1 && (pingpong || r.Bool()) {
 				gcAt = r.Range(1, len(chunks)-1) // the cron of the replaying process fires while the session is alive
+				if pingpong {
+					gcAt = r.Range(2, len(chunks)-1)
+				}
 			}
 			synctest.Test(t, func(t *testing.T) {
 				ro := vfNewOutput(c, tg)
@@ -426,7 +448,8 @@ func vfC17Sys(t *testing.T, s *vfutil.Session, seed uint64, nsteps int, tag *int
 			if gcLogAt >= 0 && gcLogAt < wend {
 				wend = gcLogAt
 			}
-			toks, odd := vfSysWire(log[n0:wend], x.c.key, x.c.mas)
+			conn := vfSysConn(log[n0:])
+			toks, odd := vfSysWire(log[n0:wend], conn, x.c.key, x.c.mas)
 			if odd != "" {
 				s.Violate("sender-bookkeeping-write-shape", "a checkpoint-key HSET of the replay path is neither (run id, version) nor (offset): "+odd, x.rep(nil))
 				return
@@ -441,16 +464,39 @@ func vfC17Sys(t *testing.T, s *vfutil.Session, seed uint64, nsteps int, tag *int
 				vfSysKeyLines(*tag, atW, x.c.key)...)
 			atW.CloseAll()
 			s.Add("sys_wire_requests", len(toks))
+			if gcLogAt >= 0 && end > gcLogEnd {
+				// the rest of the session, after the gc pass: the same tie from the state the pass left, the connection still
+				// in the database it had selected
+				cur := "0"
+				for _, e := range log[n0:gcLogEnd] {
+					if e.Conn == conn && e.Cmd() == "select" {
+						cur = string(e.Args[1])
+					}
+				}
+				toks2, odd2 := vfSysWire(log[gcLogEnd:end], conn, x.c.key, x.c.mas)
+				if odd2 != "" {
+					s.Violate("sender-bookkeeping-write-shape", "a checkpoint-key HSET of the replay path is neither (run id, version) nor (offset): "+odd2, x.rep(nil))
+					return
+				}
+				atG := vfdoubles.ReplayWith(log[:gcLogEnd], 0, true)
+				atE := vfdoubles.ReplayWith(log[:end], 0, true)
+				*tag++
+				s.Op(fmt.Sprintf("c17life %d %s %s %s %s %s", *tag, vfutil.HexS(config.Version), vfutil.HexS(x.c.key), vfutil.HexS(x.c.mas),
+					strings.Join(append([]string{"s" + cur}, toks2...), ","), checkpoint.VfDumpState(atG).Encode()),
+					vfSysKeyLines(*tag, atE, x.c.key)...)
+				atG.CloseAll()
+				atE.CloseAll()
+				s.Add("sys_wire_requests_after_gc", len(toks2))
+			}
 			if gcLogAt >= 0 && end > gcLogAt {
 				s.Count("sys_life_with_gc_inside")
 				if os.Getenv("VERIF_C17SYS_TRACE") != "" {
-					full, _ := vfSysWire(log[n0:], x.c.key, x.c.mas)
+					full, _ := vfSysWire(log[n0:], conn, x.c.key, x.c.mas)
 					fmt.Fprintf(os.Stderr, "TRACE gcinside before=%s wire=%v gcAt=%d full=%v gcw=%d\n", before, toks, gcAt, full, len(vfSysWrites(log[:gcLogEnd], gcLogAt)))
 				}
 				s.Add("sys_gc_inside_requests", len(vfSysWrites(log[:vfutil.Min(end, gcLogEnd)], gcLogAt)))
 			}
 			x.tg = vfdoubles.ReplayWith(log[:end], 0, true)
-			x.lastLifeDbs = len(checkpoint.VfDumpState(x.tg).Items)
 			x.check(fmt.Sprintf("life cut=%d/%d gcAt=%d", end-n0, len(log)-n0, gcAt), true)
 		case "start":
 			loc := x.c.key
@@ -516,8 +562,8 @@ func vfC17Sys(t *testing.T, s *vfutil.Session, seed uint64, nsteps int, tag *int
 			}
 			x.tg = vfSysCut(log, n0, ws, k)
 			s.Add("sys_gc_requests", len(ws))
-			if k == len(ws) {
-				x.lastLifeDbs = 0 // cleaned: nothing left for the next pass until a session moves on
+			if len(ws) > 0 {
+				s.Count("sys_gc_passes_deleting")
 			}
 			x.check(fmt.Sprintf("gc cut=%d/%d", k, len(ws)), false)
 		case "reset":
@@ -531,7 +577,7 @@ func vfC17Sys(t *testing.T, s *vfutil.Session, seed uint64, nsteps int, tag *int
 			log := x.relog(n0)
 			s.Add("sys_reset_requests", len(vfSysWrites(log, n0)))
 			x.tg = vfdoubles.ReplayWith(log, 0, true)
-			x.bare, x.lastLifeDbs = true, 0
+			x.bare = true
 			x.check("reset", false)
 		case "relabelB":
 			n0 := x.tg.LogLen()
@@ -605,11 +651,11 @@ func vfC17Sys(t *testing.T, s *vfutil.Session, seed uint64, nsteps int, tag *int
 // ------------------------------------------------------------ SetRunId across calls, with error replies
 
 type vfSrAttempt struct {
-	k, n     int // writes applied / writes the attempt would issue at least (k when it failed later)
-	now      int64
-	o1, o2   []int
-	lines    []string
-	done     bool
+	k, n   int // writes applied / writes the attempt would issue at least (k when it failed later)
+	now    int64
+	o1, o2 []int
+	lines  []string
+	done   bool
 }
 
 func vfDots(xs []int) string {
@@ -700,10 +746,10 @@ func vfC17SetRunIdCalls(t *testing.T, s *vfutil.Session, r *vfutil.Rand, tag *in
 	}
 	const msg = "LOADING Redis is loading the dataset in memory"
 	type result struct {
-		log      []vfdoubles.LogEntry
-		callEnd  []int
-		rets     []error
-		runIds   []string
+		log     []vfdoubles.LogEntry
+		callEnd []int
+		rets    []error
+		runIds  []string
 	}
 	run := func(faults map[int]string) *result {
 		res := &result{}
